@@ -399,7 +399,9 @@ fn items_json(src: &str, items: &[syn::Item]) -> Vec<Value> {
                 f.insert("name".into(), json!(s.ident.to_string()));
                 f.insert("span".into(), json!([a, b]));
                 f.insert("attrs".into(), attrs_json(src, &s.attrs));
-                f.insert("decl_start".into(), json!(sp(s.vis.span()).0.min(sp(s.struct_token.span()).0)));
+                let st = sp(s.struct_token.span()).0;
+                let ds = if matches!(s.vis, syn::Visibility::Inherited) { st } else { sp(s.vis.span()).0.min(st) };
+                f.insert("decl_start".into(), json!(ds));
                 f.insert("struct_token".into(), spv(&s.struct_token));
                 f.insert("fields".into(), spv(&s.fields));
                 out.push(Value::Object(f));
